@@ -115,6 +115,12 @@ paths:
                 age: {type: integer, minimum: 0}
       responses:
         "200": {description: ok}` + def + `
+  /avatar:
+    put:
+      operationId: putAvatar
+      requestBody: {required: true, content: {"image/*": {schema: {type: string, format: binary}}}}
+      responses:
+        "200": {description: ok}` + def + `
   /plain:
     get:
       operationId: getPlain
@@ -281,6 +287,19 @@ func matrixRequests() []Req {
 	r = p("valid", "application/json", validItem, "valid JSON body of unknown length (chunked)")
 	r.NoLength = true
 	add(r)
+	// putAvatar: a body declared with a media type mask
+	av := func(cls, ct, note string) Req {
+		return Req{Cls: cls, BodyKind: "required", Method: "PUT", Path: "/avatar", Header: hdr("Content-Type", ct), Payload: js("\x89PNG"), Note: note}
+	}
+	add(av("valid", "image/png", "type under the mask"))
+	add(av("valid", "image/svg+xml", "type under the mask"))
+	add(av("wrong_ct", "text/plain", "type outside the mask"))
+	add(av("wrong_ct", "imagex/png", "type token that only starts with the mask's type"))
+	add(av("wrong_ct", "images/png; charset=utf-8", "type token that only starts with the mask's type"))
+	add(av("wrong_ct", "imagepng", "mask's type without the slash"))
+	add(av("wrong_ct", "video/image", "mask's type as the subtype"))
+	add(av("unclassified", "image", "bare type without a subtype"))
+	add(av("unclassified", "image/", "empty subtype"))
 	// getPlain
 	add(Req{Cls: "valid", BodyKind: "none", Method: "GET", Path: "/plain", Header: hdr(), Note: "no stages"})
 	add(Req{Cls: "wrong_method", BodyKind: "none", Method: "POST", Path: "/plain", Header: hdr(), Note: "undefined method"})
